@@ -19,7 +19,7 @@ def refServed : List Desc → List Desc
 /-- On the wire a reply `R v` and a final stream item `I v false` are the same fact
     (`parameters.v = v`, `continues = false`). -/
 def norm : Tok → Tok
-  | .I v false => .R v
+  | .I v (some false) => .R v
   | t => t
 
 /-- One connection's observation. `complete` = all its bytes had arrived, it never failed, and the
